@@ -20,6 +20,17 @@ public:
     static bool pow(Node& n, protocol::AnnouncePayload& p) { return n.apply_announce_pow(p); }
     static bool cached(Node& n, const ChunkId& c) { return n.manifest_cache_.count(chunk_id_to_string(c)) != 0; }
     static KademliaTable& dht(Node& n) { return n.dht_; }
+    // pending fetch of a chunk: present, wait in ms until its next attempt (-1: none / never)
+    static std::pair<bool, hv::i64> fetch(Node& n, const ChunkId& c) {
+        const auto it = n.pending_chunk_fetches_.find(chunk_id_to_string(c));
+        if (it == n.pending_chunk_fetches_.end()) return {false, -1};
+        hv::i64 wait = -1;
+        if (it->second.next_attempt != std::chrono::steady_clock::time_point::max()) {
+            const auto d = std::chrono::duration_cast<std::chrono::nanoseconds>(it->second.next_attempt - std::chrono::steady_clock::now()).count();
+            wait = d >= 0 ? d / 1000000 : -((-d + 999999) / 1000000);
+        }
+        return {true, wait};
+    }
     static std::optional<std::chrono::steady_clock::time_point> chunk_deadline(Node& n, const ChunkId& c) {
         for (const auto& e : n.chunk_store_.snapshot()) if (e.id == c) return e.expires_at;
         return std::nullopt;
@@ -49,7 +60,7 @@ int main() {
         const auto base_ns = hv::g_now_ns;
         i64 idx = 0;
         while (!in.eof()) {
-            const i64 path = in.next(), rem = in.next(), frac = in.next(), adv = in.next();
+            const i64 path = in.next(), rem = in.next(), frac = in.next(), adv = in.next(), aux = in.next();
             ++idx;
             hv::g_now_ns = base_ns;      // the publisher works at the whole second
             ChunkId chunk{}; chunk[0] = 0xC3; chunk[1] = static_cast<std::uint8_t>(idx); chunk[2] = static_cast<std::uint8_t>(idx >> 8);
@@ -59,6 +70,29 @@ int main() {
             const auto uri = protocol::encode_manifest(manifest);
             hv::g_now_ns = base_ns + frac * 1'000'000LL;
             PeerId sender{}; sender[0] = 0x51; sender[1] = static_cast<std::uint8_t>(idx); sender[2] = static_cast<std::uint8_t>(idx >> 8);
+            if (path == 3) {
+                // an announce that assigns this node a shard, from a peer that cannot be reached; a node of its own, so that
+                // the fetch and the clock movement do not leak into the other records
+                Config fc = cfg; fc.identity_seed = 33u;
+                fc.fetch_retry_initial_backoff = std::chrono::seconds(aux); fc.fetch_retry_max_backoff = std::chrono::seconds(60);
+                fc.fetch_retry_success_interval = std::chrono::seconds(15); fc.fetch_retry_attempt_limit = 0; fc.fetch_max_parallel_requests = 0;
+                Node fnode(self, fc);
+                protocol::AnnouncePayload p{};
+                p.chunk_id = chunk; p.peer_id = sender; p.ttl = std::chrono::seconds(0); p.manifest_uri = uri;
+                if (!manifest.shards.empty()) p.assigned_shards = {manifest.shards.front().index};
+                TA::pow(fnode, p);
+                TA::announce(fnode, p, sender, protocol::kCurrentMessageVersion);
+                out.put(TA::cached(fnode, chunk) ? 1 : 0);
+                auto& fd = TA::dht(fnode);
+                const auto fsh = fd.shard_table_.find(chunk_id_to_string(chunk));
+                out.put(fsh != fd.shard_table_.end() ? ms_from_now(fsh->second.expires_at) : -1);
+                out.put(TA::fetch(fnode, chunk).first ? 1 : 0);
+                hv::g_now_ns += (adv > 0 ? adv : 0) * 1'000'000LL;
+                fnode.tick();
+                const auto after = TA::fetch(fnode, chunk);
+                out.put(after.first ? 1 : 0); out.put(after.second);
+                continue;
+            }
             if (path == 0) node.ingest_manifest(uri);
             else if (path == 1) { if (replica) (void)node.receive_chunk(uri, replica->data); }
             else {
